@@ -27,7 +27,8 @@
     observation mode 2: (0 names layers baseIdx otherIdx basePK otherPK) | (2)
     observation mode 1: (0 names flags resolutions rest commit) | (1) | (2)
       flags per branch per column 0 | 1 NEW | 2 REMOVED; resolutions sorted;
-      commit () | ((col ...) ((cell ...) ...)) *)
+      commit ((col ...) ((cell ...) ...)) when no record is unresolved, else (1): the command
+             (without --no-gui, merge tool unable to start) refuses *)
 From W.lib Require Import Tree Bytes GoSlice.
 From W.model Require Import ColDiff.
 From Coq Require Import Arith.
@@ -323,9 +324,29 @@ Definition run_coldiff (base : table) (others : list table) : tree :=
   | r => t_status r
   end.
 
-(** cmd/wrgl: merge --no-gui writes the unresolved records and the remaining rows
-    (SaveResolvedRow(pk, nil) for each, SortedRows(nil)); without conflicts merge
-    --no-commit / commit use the union of the Removed sets (SortedRows / SortedBlocks). *)
+(** cmd/wrgl runMerge without --no-gui (`wrgl merge BRANCH COMMIT`, blocks = true: commit through
+    SortedBlocks; `--no-commit`, blocks = false: MERGE csv through SortedRows), with the merge tool
+    unable to start.  collectMergeConflicts drains Merger.Start: the records it receives are the
+    unresolved ones.  None: the result is produced with removedCols = union of the Removed sets;
+    otherwise the merge tool is asked for, i.e. here the command refuses and changes nothing. *)
+Inductive cmd_outcome := CmdCommitted (o : merge_out) | CmdRefused | CmdFailed (st : N).
+
+Definition all_resolved (recs : list keyrec) : bool := forallb (fun kr => r_resolved (k_res kr)) recs.
+
+Definition cmd_merge (base : table) (others : list table) (blocks : bool) : cmd_outcome :=
+  match run_merge base others 0 1 false with
+  | Ok o0 =>
+      if all_resolved (mo_recs o0) then
+        match run_merge base others 0 1 blocks with
+        | Ok o => CmdCommitted o
+        | r => CmdFailed (status r)
+        end
+      else CmdRefused
+  | r => CmdFailed (status r)
+  end.
+
+(** merge --no-gui writes the unresolved records and the remaining rows
+    (SaveResolvedRow(pk, nil) for each, SortedRows(nil)). *)
 Definition run_cli (base : table) (others : list table) : tree :=
   match others with
   | [_; _] =>
@@ -340,12 +361,10 @@ Definition run_cli (base : table) (others : list table) : tree :=
           let resolutions := isort klt (flat_map (fun kr => match r_row (k_res kr) with Some r => [r] | None => [] end)
                                                  unresolved) in
           let commit :=
-            match unresolved with
-            | [] => match run_merge base others 1 1 true with
-                    | Ok o2 => Node [t_list t_bytes (mo_cols o2); t_list t_row (mo_rows o2)]
-                    | r => t_status r
-                    end
-            | _ => Node []
+            match cmd_merge base others true with
+            | CmdCommitted o2 => Node [t_list t_bytes (mo_cols o2); t_list t_row (mo_rows o2)]
+            | CmdRefused => Node [Leaf 1]
+            | CmdFailed st => Node [Leaf st]
             end in
           Node [Leaf 0; t_list t_bytes (cd_names cd); Node flags; t_list t_row resolutions;
                 t_list t_row (mo_rows o); commit]
